@@ -1025,9 +1025,121 @@ Definition ownership_probes : list probe := [
     "true; failing: "
 ].
 
+(* "Bound to the operation of that name" for the built-ins ES5 defines as GENERIC or as DELEGATING
+   to another property of their receiver, and for the constructors that are also callable:
+   gen:*  - Date.prototype.toJSON looks toISOString up on the receiver (15.9.5.44: shadowed on an
+     instance, replaced on the prototype, a non-Date receiver, through JSON.stringify, null for a
+     non-finite number, TypeError if not callable); Object.prototype.toLocaleString -> toString
+     (15.2.4.3); Array.prototype.toString -> join, else Object.prototype.toString (15.4.4.2);
+     Array.prototype.toLocaleString -> the elements' toLocaleString (15.4.4.3); join -> ToString
+     of elements and separator; sort -> comparator / ToString; every Array.prototype method on
+     array-like receivers (15.4.4.x "intentionally generic"); the String.prototype methods on
+     numbers, booleans, arrays and objects with toString, TypeError for null (15.5.4.x);
+     replace/match/search/split with function and object arguments (15.5.4.10-14);
+     JSON.stringify -> toJSON, replacer, the valueOf/toString of wrapper objects, gap objects
+     (15.12.3); JSON.parse -> reviver order (15.12.2); Error.prototype.toString -> name/message
+     of any object (15.11.4.4); ToPrimitive order through String/Number/Date/parseInt/isNaN/Math
+     (8.12.8, 9.1); property keys through ToString; ToPropertyDescriptor reads inherited fields
+     through [[Get]] (8.10.5); apply/call with array-likes and this coercion (15.3.4.3-4); and the
+     methods that are NOT generic throw TypeError on a foreign receiver.
+   callform:* - Date(...) ignores its arguments and answers with the current time (15.9.2.1);
+     String/Number/Boolean(...) convert (15.5.1, 15.7.1, 15.6.1); Object(...) is ToObject or a new
+     object (15.2.1.1); Array(...) = new Array(...) including the RangeErrors (15.4.1, 15.4.2.2);
+     RegExp(re) returns re itself (15.10.3.1); Error/NativeError(...) = new (15.11.1, 15.11.7.1);
+     Function(...) = new Function(...) (15.3.1.1) - each with every kind of argument list.
+   uri:decode - decodeURIComponent decodes the reserved set that decodeURI keeps (15.1.3.1-2),
+     and the encode pair likewise.
+   All run in every configuration and history. *)
+Definition generic_probes : list probe := [
+  P "gen:Date.toJSON"
+    "(function(){var d=new Date(0);var r=[d.toJSON()];d.toISOString=function(){return 'own:'+this.getTime()};r.push(d.toJSON(),JSON.stringify(d),JSON.stringify({k:d}));r.push(Date.prototype.toJSON.call({valueOf:function(){return 1},toISOString:function(){return 'generic'}}));r.push(Date.prototype.toJSON.call({valueOf:function(){return NaN},toISOString:function(){return 'no'}})===null,new Date(NaN).toJSON()===null);var t;try{Date.prototype.toJSON.call({valueOf:function(){return 1},toISOString:5});t='no'}catch(e){t=e instanceof TypeError}r.push(t);var saved=Date.prototype.toISOString;Date.prototype.toISOString=function(){return 'poly'};try{r.push(new Date(5).toJSON(),JSON.stringify(new Date(5)))}finally{Date.prototype.toISOString=saved}r.push(new Date(5).toJSON());return r.join('|')})()"
+    "1970-01-01T00:00:00.000Z|own:0|""own:0""|{""k"":""own:0""}|generic|true|true|true|poly|""poly""|1970-01-01T00:00:00.005Z";
+  P "gen:Object.toLocaleString"
+    "[Object.prototype.toLocaleString.call({toString:function(){return 'ts'}}),Object.prototype.toLocaleString.call(7),(function(){try{Object.prototype.toLocaleString.call({toString:5});return 'no'}catch(e){return e instanceof TypeError}})(),Object.prototype.toLocaleString.call([1,2]),Object.prototype.toLocaleString.call({})].join('|')"
+    "ts|7|true|1,2|[object Object]";
+  P "gen:Array.toString"
+    "[Array.prototype.toString.call({join:function(){return 'J'}}),Array.prototype.toString.call({join:5}),Array.prototype.toString.call({}),(function(){var a=[1,2];a.join=function(){return 'own'};return [a.toString(),String(a),a+'']})().join(),Array.prototype.toString.call('ab'),Array.prototype.toString.call({length:2,0:'x',1:'y',join:Array.prototype.join})].join('|')"
+    "J|[object Object]|[object Object]|own,own,own|[object String]|x,y";
+  P "gen:Array.toLocaleString"
+    "[Array.prototype.toLocaleString.call([{toLocaleString:function(){return 'L'},toString:function(){return 'T'}}]),Array.prototype.toLocaleString.call({length:1,0:{toLocaleString:function(){return 'G'}}}),[null].toLocaleString()===''&&[undefined].toLocaleString()==='',(function(){try{[{toLocaleString:5}].toLocaleString();return 'no'}catch(e){return e instanceof TypeError}})()].join('|')"
+    "L|G|true|true";
+  P "gen:Array.join"
+    "[[{toString:function(){return 'a'}},{toString:function(){return 'b'},valueOf:function(){return 'v'}}].join('-'),Array.prototype.join.call({length:3,0:'x',2:'z'},'+'),Array.prototype.join.call('abc','.'),[1,2].join({toString:function(){return '/'}}),Array.prototype.join.call({length:'2',0:1,1:2})].join('|')"
+    "a-b|x++z|a.b.c|1/2|1,2";
+  P "gen:Array.sort"
+    "(function(){var calls=0;var a=[3,1,2].sort(function(x,y){calls++;return y-x});var o={length:3,0:'b',1:'c',2:'a'};Array.prototype.sort.call(o);var t=[{toString:function(){return 'b'}},{toString:function(){return 'a'}}].sort();return [a.join(''),calls>0,o[0]+o[1]+o[2],String(t[0])+String(t[1]),[10,9,1].sort().join(),[,2,undefined,1].sort().length].join('|')})()"
+    "321|true|abc|ab|1,10,9|4";
+  P "gen:Array.generic"
+    "(function(){var o={length:2,0:'a',1:'b'};var r=[];r.push(Array.prototype.push.call(o,'c'),o.length,o[2]);r.push(Array.prototype.pop.call(o),o.length);r.push(Array.prototype.shift.call(o),o.length,o[0]);r.push(Array.prototype.unshift.call(o,'z'),o[0]+o[1]);r.push(Array.prototype.slice.call({length:3,0:1,1:2,2:3},1).join(''));r.push(Array.prototype.splice.call(o,0,1).join(''),o.length);r.push(Array.prototype.reverse.call({length:2,0:1,1:2})[0]);r.push(Array.prototype.indexOf.call({length:2,0:'p',1:'q'},'q'),Array.prototype.lastIndexOf.call('abca','a'));r.push(Array.prototype.map.call('ab',function(c){return c+c}).join(''),Array.prototype.filter.call({length:3,0:1,1:2,2:3},function(x){return x>1}).join(''));r.push(Array.prototype.every.call('aa',function(c){return c==='a'}),Array.prototype.some.call({length:1,0:5},function(x){return x===5}));r.push(Array.prototype.reduce.call('abc',function(a,c){return c+a}),Array.prototype.reduceRight.call({length:2,0:'x',1:'y'},function(a,c){return a+c}));var s=[];Array.prototype.forEach.call({length:2,0:7,1:8},function(x,i){s.push(i+':'+x+':'+this.k)},{k:'t'});r.push(s.join(';'));r.push(Array.prototype.concat.call(1,2).length,typeof Array.prototype.concat.call(1,2)[0]);return r.join('|')})()"
+    "3|3|c|c|2|a|1|b|2|zb|23|z|1|2|1|3|aabb|23|true|true|cba|yx|0:7:t;1:8:t|2|object";
+  P "gen:String.generic"
+    "[String.prototype.charAt.call(123,1),String.prototype.indexOf.call({toString:function(){return 'xyz'}},'z'),String.prototype.slice.call(12345,1,3),String.prototype.split.call(1.5,'.').join('/'),String.prototype.substring.call(true,1),String.prototype.toUpperCase.call({toString:function(){return 'up'}}),String.prototype.trim.call({toString:function(){return ' t '}}),String.prototype.concat.call(1,2,3),String.prototype.charCodeAt.call(7,0),String.prototype.lastIndexOf.call(1212,'1'),String.prototype.substr.call(12345,1,2),String.prototype.toLowerCase.call(['A','B']),(function(){try{String.prototype.trim.call(null);return 'no'}catch(e){return e instanceof TypeError}})()].join('|')"
+    "2|2|23|1/5|rue|UP|t|123|55|2|23|a,b|true";
+  P "gen:String.replace"
+    "['abc'.replace('b',function(m,i,s){return '['+m+i+s+']'}),'aXbX'.replace(/x/gi,function(m,i){return i}),'abc'.replace({toString:function(){return 'b'}},'-'),'abc'.replace('b',{toString:function(){return '$&$&'}}),'a1b22'.replace(/(\d)(\d)?/g,function(m,p,q,i){return '<'+p+(q===undefined?'u':q)+i+'>'}),'abc'.match({toString:function(){return 'b'}})[0],'abc'.search({toString:function(){return 'c'}}),'a.b'.split({toString:function(){return '.'}}).join('/'),'x'.replace('x','$$-$`-$\'')].join('|')"
+    "a[b1abc]c|a1b3|a-c|abbc|a<1u1>b<223>|b|2|a/b|$--";
+  P "gen:JSON.stringify"
+    "[JSON.stringify({toJSON:function(k){return 'tj:'+k}}),JSON.stringify({a:{toJSON:function(k){return k+'!'}}}),JSON.stringify([new Number(1),new String('s'),new Boolean(false),Object(2)]),JSON.stringify({a:1,b:2},function(k,v){return k==='a'?undefined:v}),JSON.stringify({n:{valueOf:function(){return 1}}}),JSON.stringify((function(){var n=new Number(3);n.valueOf=function(){return 4};return n})()),JSON.stringify((function(){var s=new String('p');s.toString=function(){return 'q'};return s})()),JSON.stringify({a:[]},null,{toString:function(){return 'x'}}),JSON.stringify({a:1},null,new Number(1)).length,JSON.stringify(function(){}),JSON.stringify({f:function(){},u:undefined,n:null})].join('|')"
+    """tj:""|{""a"":""a!""}|[1,""s"",false,2]|{""b"":2}|{""n"":{}}|4|""q""|{""a"":[]}|11||{""n"":null}";
+  P "gen:JSON.parse"
+    "(function(){var ks=[];var r=JSON.parse('{""a"":[1,{""b"":2}],""c"":3}',function(k,v){ks.push(k);if(k==='c')return undefined;if(typeof v==='number')return v*10;return v});function ix(k){return ks.indexOf(k)}return [ks.slice().sort().join(','),ix('0')<ix('a')&&ix('b')<ix('1')&&ix('1')<ix('a')&&ix('')===ks.length-1&&ks.length===6,JSON.stringify(r),this===undefined].join('|')})()"
+    ",0,1,a,b,c|true|{""a"":[10,{""b"":20}]}|false";
+  P "gen:Error.toString"
+    "[Error.prototype.toString.call({name:'N',message:'M'}),Error.prototype.toString.call({name:{toString:function(){return 'n2'}},message:{toString:function(){return 'm2'}}}),Error.prototype.toString.call({name:'',message:'only'}),Error.prototype.toString.call({name:undefined,message:undefined}),(function(){var e=new TypeError('x');e.name='Custom';return e.toString()})(),(function(){var e=new Error('x');e.message='changed';return String(e)})(),RangeError.prototype.toString.call({name:'Q',message:'r'})].join('|')"
+    "N: M|n2: m2|only|Error|Custom: x|Error: changed|Q: r";
+  P "gen:ToPrimitive"
+    "[String({toString:function(){return 'ts'},valueOf:function(){return 'vo'}}),Number({toString:function(){return '7'},valueOf:function(){return 8}}),String({toString:function(){return {}},valueOf:function(){return 'fallback'}}),Number({valueOf:function(){return {}},toString:function(){return '9'}}),new Date({valueOf:function(){return 86400000}}).getTime(),new Date({valueOf:function(){return '1970-01-02T00:00:00Z'},toString:function(){return 'x'}}).getTime(),parseInt({toString:function(){return '42px'}}),parseFloat({toString:function(){return '1.5x'}}),isNaN({valueOf:function(){return NaN}}),isFinite({valueOf:function(){return 1}}),Math.max({valueOf:function(){return 3}},'4'),Math.abs({valueOf:function(){return -2}}),(function(){try{String({toString:function(){return {}},valueOf:function(){return {}}});return 'no'}catch(e){return e instanceof TypeError}})(),[1,2].indexOf({valueOf:function(){return 1}}),new String({toString:function(){return 'w'}}).length,new Number({valueOf:function(){return 6}}).valueOf(),Boolean({valueOf:function(){return false}})].join('|')"
+    "ts|8|fallback|9|86400000|86400000|42|1.5|true|true|4|2|true|-1|1|6|true";
+  P "gen:keys"
+    "[({a:1}).hasOwnProperty({toString:function(){return 'a'}}),({a:1}).propertyIsEnumerable({toString:function(){return 'a'}}),Object.getOwnPropertyDescriptor({k:5},{toString:function(){return 'k'}}).value,Object.defineProperty({},{toString:function(){return 'd'}},{value:1}).d,Object.prototype.hasOwnProperty.call('ab',1),Object.prototype.hasOwnProperty.call('ab','length'),Object.prototype.propertyIsEnumerable.call([7],0),Object.prototype.isPrototypeOf.call(Array.prototype,[]),Object.prototype.valueOf.call('s') instanceof String,Object.keys(Object.create({i:1},{o:{value:1,enumerable:true}})).join()].join('|')"
+    "true|true|5|1|true|true|true|true|true|o";
+  P "gen:descriptor.fields"
+    "(function(){function D(){}D.prototype.value=9;D.prototype.enumerable=true;var o=Object.defineProperty({},'p',new D);var d=Object.getOwnPropertyDescriptor(o,'p');var g={get get(){return function(){return 'viaget'}}};var o2=Object.defineProperty({},'q',g);var o3=Object.create({},{r:new D});var t;try{Object.defineProperty({},'x',{get:function(){},value:1});t='no'}catch(e){t=e instanceof TypeError}var t2;try{Object.defineProperty({},'x',{get:5});t2='no'}catch(e){t2=e instanceof TypeError}return [d.value,d.enumerable,d.writable,d.configurable,o2.q,o3.r,Object.keys(o3).join(),t,t2].join('|')})()"
+    "9|true|false|false|viaget|9|r|true|true";
+  P "gen:apply.call"
+    "[Function.prototype.apply.call(function(){return arguments.length+':'+this.k},{k:'t'},{length:2,0:1,1:2}),Math.max.apply(null,{length:3,0:1,1:9,2:3}),(function(){return String.prototype.slice.apply('abcdef',arguments)})(1,3),Function.prototype.call.call(function(a){return this+a},'x','y'),(function(){try{Function.prototype.apply.call(function(){},null,1);return 'no'}catch(e){return e instanceof TypeError}})(),(function(){try{Function.prototype.call.call({});return 'no'}catch(e){return e instanceof TypeError}})(),(function(){return typeof this}).call(5),(function(){return this===(function(){return this})()}).call(null),(function(){return this===(function(){return this})()}).apply(undefined)].join('|')"
+    "2:t|9|bc|xy|true|true|object|true|true";
+  P "gen:nongeneric"
+    "[[Number.prototype.toString,{}],[Number.prototype.valueOf,'1'],[Boolean.prototype.toString,1],[Boolean.prototype.valueOf,{}],[String.prototype.toString,{}],[String.prototype.valueOf,1],[Date.prototype.getTime,{}],[Date.prototype.valueOf,0],[Date.prototype.toISOString,{}],[Date.prototype.getFullYear,'x'],[Date.prototype.setTime,{}],[Date.prototype.toString,{}],[RegExp.prototype.exec,{}],[RegExp.prototype.test,'a'],[Function.prototype.toString,{}],[Function.prototype.call,{}],[Function.prototype.bind,{}],[Object.getPrototypeOf,1],[Object.keys,'s'],[Object.create,1],[Object.defineProperty,1]].map(function(p,i){try{p[0].call(p[1],p[1]);return i}catch(e){return e instanceof TypeError?'T':e.name}}).join('')"
+    "TTTTTTTTTTTTTTTTTTTTT";
+  P "callform:Date"
+    "(function(){var y=String(new Date().getFullYear());function now(s){return typeof s==='string'&&s.indexOf(y)>=0&&s.indexOf('Invalid')<0}var vs=[Date(),Date(0),Date(86400000*365*10),Date(1980,5,15,12,0,0),Date('x'),Date('1980-01-01T00:00:00Z'),Date(NaN),Date(new Date(0)),Date({valueOf:function(){throw 1}}),Date.call(null,0),Date.apply(new Date(0),[0])];return vs.map(now).join()+'|'+[typeof new Date(0),new Date(0).getTime(),new Date(1980,5,15).getFullYear(),isNaN(new Date('x').getTime())].join()})()"
+    "true,true,true,true,true,true,true,true,true,true,true|object,0,1980,true";
+  P "callform:String"
+    "[String(),String(123),String(null),String(undefined),String(true),String('s'),String([1,[2,3]]),String({toString:function(){return 'o'}}),typeof String(1),typeof new String(1),new String(5)=='5',new String().length,String.call({},7),typeof String.call(new String('x'),7),String(new String('w'))==='w',String(-0),String(1e21),String(function(){}).indexOf('function')===0].join('|')"
+    "|123|null|undefined|true|s|1,2,3|o|string|object|true|0|7|string|true|0|1e+21|true";
+  P "callform:Number"
+    "[Number(),Number('12'),Number(''),Number(' 0x1F '),Number(null),Number(undefined),Number(true),Number('1e3'),Number('x'),Number([5]),Number({valueOf:function(){return 2}}),typeof Number('1'),typeof new Number(1),Number.call({},'3'),new Number('4')+1,Number(new Number(6))===6,Number('-0')===0&&1/Number('-0')<0,Number('Infinity')].join('|')"
+    "0|12|0|31|0|NaN|1|1000|NaN|5|2|number|object|3|5|true|true|Infinity";
+  P "callform:Boolean"
+    "[Boolean(),Boolean(0),Boolean(''),Boolean('0'),Boolean(null),Boolean(NaN),Boolean({}),Boolean([]),Boolean(new Boolean(false)),typeof Boolean(1),typeof new Boolean(1),Boolean.call({},0),new Boolean(0).valueOf(),new Boolean('false').valueOf()].join('|')"
+    "false|false|false|true|false|false|true|true|true|boolean|object|false|false|true";
+  P "callform:Object"
+    "(function(){var o={};return [Object(o)===o,new Object(o)===o,Object(1) instanceof Number,Object('s') instanceof String,Object(true) instanceof Boolean,typeof Object(null),typeof Object(undefined),typeof Object(),Object.getPrototypeOf(Object())===Object.prototype,Object(1).valueOf(),Object('ab').length,Object(Math)===Math,Object(parseInt)===parseInt,new Object(3).valueOf(),Object.call(5,o)===o,Object.keys(Object(null)).length].join('|')})()"
+    "true|true|true|true|true|object|object|object|true|1|2|true|true|3|true|0";
+  P "callform:Array"
+    "[Array().length,Array(3).length,Array(3).join('-'),Array(1,2).join(),Array('3').length,Array('3')[0],Array(0).length,Array(2.0).length,Array(undefined).length,Array(null)[0],Array([1,2]).length,Array.isArray(Array()),Array.call({},2).length,Object.getPrototypeOf(Array(1))===Array.prototype,(function(){try{Array(-1);return 'no'}catch(e){return e instanceof RangeError}})(),(function(){try{Array(1.5);return 'no'}catch(e){return e instanceof RangeError}})(),(function(){try{Array(4294967296);return 'no'}catch(e){return e instanceof RangeError}})(),new Array(2,3).length,Array(4294967295).length].join('|')"
+    "0|3|--|1,2|1|3|0|2|1||1|true|2|true|true|true|true|2|4294967295";
+  P "callform:RegExp"
+    "(function(){var r=/a/g;var t1,t2;try{RegExp(r,'i');t1='no'}catch(e){t1=e instanceof TypeError}try{RegExp('a','gg');t2='no'}catch(e){t2=e instanceof SyntaxError}return [RegExp(r)===r,RegExp(r,undefined)===r,new RegExp(r)!==r,new RegExp(r).source,new RegExp(r).global,RegExp('b','im').multiline,RegExp('b','im').ignoreCase,RegExp('b').global,RegExp('a+').test('caat'),Object.prototype.toString.call(RegExp('x')),RegExp(undefined).test(''),String(RegExp('a/b')).length>0,RegExp({toString:function(){return 'z'}}).source,t1,t2,RegExp.call({},'q').source,RegExp('x').lastIndex].join('|')})()"
+    "true|true|true|a|true|true|true|false|true|[object RegExp]|true|true|z|true|true|q|0";
+  P "callform:Error"
+    "[Error,EvalError,RangeError,ReferenceError,SyntaxError,TypeError,URIError].map(function(C){var a=C('m'),b=C(),c=C(undefined),d=C({toString:function(){return 'ts'}}),e=C.call({},'x');return [a instanceof C,a.message,b.hasOwnProperty('message'),c.hasOwnProperty('message'),b.message==='',d.message,e instanceof C&&e.message==='x',Object.getPrototypeOf(a)===C.prototype,a!==C('m'),new C('n').message,String(C(0).message),typeof C(0).message].join(',')}).join('|')"
+    "true,m,false,false,true,ts,true,true,true,n,0,string|true,m,false,false,true,ts,true,true,true,n,0,string|true,m,false,false,true,ts,true,true,true,n,0,string|true,m,false,false,true,ts,true,true,true,n,0,string|true,m,false,false,true,ts,true,true,true,n,0,string|true,m,false,false,true,ts,true,true,true,n,0,string|true,m,false,false,true,ts,true,true,true,n,0,string";
+  P "callform:Function"
+    "[Function('a','b','return a*b')(3,4),Function('return this')()===this,Function()(),typeof Function(),Function('a',{toString:function(){return 'return a+1'}})(1),Function({toString:function(){return 'q'}},'return q')(8),Function.call({},'return 5')(),new Function('x','return x')(9),Function('a,b','c','return a+b+c')(1,2,3),Function('return arguments.length')(1,2,3),(function(){try{Function('}');return 'no'}catch(e){return e instanceof SyntaxError}})(),(function(){try{Function('a b','');return 'no'}catch(e){return e instanceof SyntaxError}})()].join('|')"
+    "12|true||function|2|8|5|9|6|3|true|true";
+  P "uri:decode"
+    "[decodeURIComponent('%3B%2F%3F%3A%40%26%3D%2B%24%2C%23'),decodeURI('%3B%2F%3F%3A%40%26%3D%2B%24%2C%23'),decodeURIComponent('%3b%2f%23'),decodeURI('%3b%2f%23'),decodeURIComponent(encodeURIComponent('a=1&b=2/c#d')),decodeURI(encodeURI('a=1&b=2/c#d?e')),decodeURI('%41%20%E2%82%AC')===decodeURIComponent('%41%20%E2%82%AC'),decodeURI('%25'),encodeURIComponent(';/?:@&=+$,#'),encodeURI(';/?:@&=+$,#'),encodeURI('-_.!~*\'()')+encodeURIComponent('-_.!~*\'()'),escape('@*_+-./'),unescape('%u0041%41%zz')].join('|')"
+    ";/?:@&=+$,#|%3B%2F%3F%3A%40%26%3D%2B%24%2C%23|;/#|%3b%2f%23|a=1&b=2/c#d|a=1&b=2/c#d?e|true|%|%3B%2F%3F%3A%40%26%3D%2B%24%2C%23|;/?:@&=+$,#|-_.!~*'()-_.!~*'()|@*_+-./|AA%zz";
+  P "gen:Date.toJSON.nonnumber"
+    "[Date.prototype.toJSON.call({toISOString:function(){return 'str-prim'}}),Date.prototype.toJSON.call({valueOf:function(){return 'abc'},toISOString:function(){return 'vo-string'}}),Date.prototype.toJSON.call({valueOf:function(){return true},toISOString:function(){return 'vo-bool'}})].join('|')"
+    "str-prim|vo-string|vo-bool"
+].
+
 Definition all_probes : list probe :=
   (probes ++ ext_probes ++ kind_probes ++ regression_probes ++ intrinsic_probes ++
-   function_probes ++ cross_probes ++ ownership_probes)%list.
+   function_probes ++ cross_probes ++ ownership_probes ++ generic_probes)%list.
 
 (* the standard objects that must have a kind probe *)
 Definition kind_required : list string :=
